@@ -68,7 +68,18 @@ def runLines : P Verdict := do
     | .error .lengthMismatch => "err:length"
   let corr := firstSome [check splitOk "splitn(3,' ') model differs from the implementation's split",
                          check (m == res) s!"load_from_strings model={m} impl={res}"]
+  -- the statement: every non-blank line must be a well-formed label line (LABEL, or START END LABEL with two
+  -- numbers); anything else must be reported as an error
+  let wellFormed (l : List Nat) : Bool :=
+    l.isEmpty ||
+    (match splitn3 l with
+     | [a] => (parseL a).isSome
+     | [a, b, c] => (parseF a).isSome && (parseF b).isSome && (parseL c).isSome
+     | _ => false)
+  let allWell := lines.all wellFormed
   let orc := firstSome [
+    check (allWell || res != "ok") "a line that is not a well-formed label line was accepted instead of being reported as an error",
+    check (!allWell || res == "ok") s!"well-formed label lines were rejected: {res}",
     check (!res.startsWith "panic") s!"label text caused a panic: {res}",
     check (genRes != "gen-panic") "Engine::generator panicked on label text",
     check ((res == "ok") == (genRes == "gen-ok")) s!"Engine::generator ({genRes}) disagrees with Labels::load_from_strings ({res})" ]
